@@ -67,7 +67,12 @@ pub fn rand_placed_lib(rng: &mut Rng, max_cells: usize, with_abstracts: bool) ->
         if with_abstracts && rng.chance(1, 4) {
             cell.abs = Some(tet::abs::Abstract::new(name.clone(), lay.metals, lay.outline.clone()));
         }
-        cell.layout = Some(lay);
+        if with_abstracts && d.is_empty() && rng.chance(1, 4) {
+            // an abstract-only leaf: no layout view at all
+            cell.abs = Some(tet::abs::Abstract::new(name.clone(), lay.metals, lay.outline.clone()));
+        } else {
+            cell.layout = Some(lay);
+        }
         names.push(name);
         deps.push(d);
         cells.push(Ptr::new(cell));
